@@ -302,6 +302,16 @@ pub fn base<const NV: usize, const NE: usize>() {
     std::mem::forget(si);
 }
 
+/// one search direction per harness instance (halves the symbolic execution; both run in parallel)
+pub fn step_dir<const NV: usize, const NE: usize>(forward: bool) {
+    let mut ei = EnvIn::<NV, NE>::any();
+    ei.forward = forward;
+    ei.record();
+    let xi = StateIn::<NV>::any();
+    xi.record();
+    step_core(ei, xi);
+}
+
 pub fn step<const NV: usize, const NE: usize>() {
     let ei = EnvIn::<NV, NE>::any();
     ei.record();
